@@ -120,7 +120,9 @@ pub enum ReturnType { Infallible(SuccessType), Fallible(SuccessType, Option<OutT
 #[verifier::external_body] pub struct LifetimeEnv { x: u8 }
 
 pub trait LifetimeLowerer {
-    fn lower_lifetime(&mut self, lifetime: &ast::Lifetime) -> MaybeStatic<Lifetime>;
+    // every implementor maps 'static to Static (proved for Base/Param/ReturnLifetimeLowerer in unit `elision`)
+    fn lower_lifetime(&mut self, lifetime: &ast::Lifetime) -> (r: MaybeStatic<Lifetime>)
+        ensures (*lifetime is Static) ==> (r is Static);
     fn lower_generics(&mut self, lifetimes: &[ast::Lifetime], type_generics: &ast::LifetimeEnv, is_self: bool) -> Lifetimes;
 }
 
